@@ -177,6 +177,9 @@ type SimConn struct {
 	Tag           int
 	Owner         any    // server-side session, set by the Acceptor
 	Label         string // canonical name given by the server when it executes the connection's first request
+	// OnWrite, if set by the Acceptor, runs in the WRITING goroutine after the bytes were appended (a peer that answers
+	// with zero latency instead of waiting for the scheduler; used for auxiliary doubles whose timing no oracle is about)
+	OnWrite func()
 
 	mu   sync.Mutex
 	cond *sync.Cond
@@ -248,6 +251,11 @@ func (c *SimConn) Write(b []byte) (int, error) {
 	}
 	c.c2s = append(c.c2s, b...)
 	c.BytesC2S += int64(len(b))
+	if f := c.OnWrite; f != nil {
+		c.mu.Unlock()
+		f()
+		c.mu.Lock()
+	}
 	return len(b), nil
 }
 
